@@ -55,6 +55,7 @@ def parseOp (w : String) : Option Op :=
   | ["V", h, f] => (docT h).map fun t => .dval t (f == "1")
   | ["E"] => some .dclose
   | ["F", f] => some (.dfail (f == "1"))
+  | ["X", _] => some (.dfail true)     -- a rejected whole-input parse: its arena is created and released by the step
   | _ => none
 
 def sortNat (l : List Nat) : List Nat := (l.toArray.qsort (· < ·)).toList
